@@ -37,6 +37,13 @@ Pool == <<
     Ct("OneAddr", <<StateVar("oa", Ty("address", 0), <<>>, <<>>)>>),
     Ct("OneBool", <<StateVar("ob", Ty("bool", 0), <<>>, <<>>)>>),
     Ct("TightBool", <<StateVar("tb1", U256, <<>>, <<>>), StateVar("tb2", Ty("bool", 0), <<>>, <<>>)>>),
+    \* a name declared in one item and used in another, unrelated one: no file-wide table keyed by bare names
+    Ct("AuthDecl", <<StateVar("boss", Ty("address", 0), <<>>, <<>>),
+                     FnDecl("modifier", "auth", <<>>, NoParams, <<>>, TRUE,
+                            <<ExprStmt(CallNamed("require", <<Bin("E.Equal", MsgSender, Var("boss"))>>)), ExprStmt(Var("_"))>>)>>),
+    Ct("AuthUser", <<StateVar("heir", Ty("address", 0), <<>>, <<>>),
+                     FnDecl("function", "close", VisAttr("external") \o <<ModAttr("auth", 0 - 1)>>, NoParams, <<>>, TRUE,
+                            <<DestructCall("selfdestruct", Payable(Var("heir")))>>)>>),
     Ct("TightAddr", <<StateVar("ta1", U256, <<>>, <<>>), StateVar("ta2", Ty("address", 0), <<>>, <<>>),
                       Fn("setTa", "public", <<Asg("ta1", Num("1")), Asg("ta2", MsgSender)>>)>>)
 >>
